@@ -247,9 +247,25 @@ def check_parse(s, deep):
 
 
 # ------------------------------------------------------------------ (c) node contexts
-def check_node(w, r, deep):
-    where = "create_from_cap(%r, %r, deep_immutable=%r)" % (w, r, deep)
+def check_node(w, r, deep, warm=False):
+    where = "create_from_cap(%r, %r, deep_immutable=%r)%s" % (w, r, deep, " on a NodeMaker whose node cache is warm" if warm else "")
     nm = NodeMaker(None, None, None, None, None, ENC, None, None)
+    keep = []
+    if warm:
+        # NodeMaker memoises mutable nodes: first obtain (and keep alive) nodes for the same cap
+        # bodies in every OTHER context, so that a cache keyed by the wrong thing would answer
+        bodies = set()
+        for x in (w, r):
+            if x:
+                bodies.add(L.split_alleged(x)[1])
+        for b in sorted(bodies):
+            for (ww, rr, dd) in ((b, None, False), (None, b, False), (b, b, False), (b, None, True), (None, b, True)):
+                if (ww, rr, dd) == (w, r, deep):
+                    continue
+                try:
+                    keep.append(nm.create_from_cap(ww, rr, deep_immutable=dd, name="warm"))
+                except Exception:  # noqa
+                    pass
     try:
         n = nm.create_from_cap(w, r, deep_immutable=deep, name="c16")
         unknown = n.is_unknown() if hasattr(n, "is_unknown") else None
@@ -377,7 +393,8 @@ def run_case(case):
         bad, label = check_parse(case["s"], case["deep"])
         return bad, 1, label
     bad, label = check_node(case["w"], case["r"], case["deep"])
-    return bad, 1, label
+    bad2, label2 = check_node(case["w"], case["r"], case["deep"], warm=True)
+    return bad + [(sig + "@warm-cache", msg) for (sig, msg) in bad2], 2, label
 
 
 def _chunk(chunk):
